@@ -41,6 +41,8 @@ CLASSES = {
     'str_semi': '"a;b"',
     'str_nl': '"a\nb"',
     'str_dq': '"a""b"',
+    'str_nlnl': '"a\n\nb"',
+    'q_nlnl': '|a\n\n\nb|',
     'str_dq_sp': '"a"" b  c d e f g h i j"',
     'str_nl_long': '"a\n' + 'w ' * 45 + 'e"',
     'q_nl_long': '|a\n' + 'v ' * 45 + 'e|',
